@@ -18,7 +18,7 @@ RES = ["thread", "async-thread", "main-thread"]
 # generator
 # ------------------------------------------------------------------------------------------------
 def gen_shape(rng, nmin=2, nmax=9, mix=None, pri="small", seq_rate=0.2, flags=True, reuse=True, mc_max=4,
-              kinds=True, max_deps=3, setup_rate=0.0, tag_rate=0.0, const_objects=0.06, nest_rate=0.0, debug_rate=0.0):
+              kinds=True, max_deps=3, setup_rate=0.0, tag_rate=0.0, const_objects=0.06, nest_rate=0.0, debug_rate=0.0, twin_rate=0.0):
     n = rng.randint(nmin, nmax)
     mix = mix or rng.choice(["thread", "async", "mixed", "mixed_main", "thread_main", "async_main"])
     fns = {}
@@ -97,9 +97,15 @@ def gen_shape(rng, nmin=2, nmax=9, mix=None, pri="small", seq_rate=0.2, flags=Tr
         for fn in names:
             r = rng.random()
             if r < 0.3:
-                fns[fn]["tag"] = "T"
+                # (some tags are substrings of other tags: "T" in "TT" and "xT" - an alias names the nodes carrying exactly it)
+                fns[fn]["tag"] = rng.choice(["T", "T", "TT", "xT"])
             elif r < 0.5 and len(names) > 1:
                 fns[fn]["tag"] = rng.choice([x for x in names if x != fn])
+    if kinds and len(fns) >= 2 and rng.random() < twin_rate:
+        # two different decorated functions with ONE qualified name (and their own options): ids f, f<<1>>, ... in build order
+        a, b = rng.sample(sorted(fns), 2)
+        if not any(fns[q].get(k) for q in (a, b) for k in ("setup", "unpack_to")) and not any(fs.get("tag") in (a, b) for fs in fns.values()):
+            fns[b]["alias_of"] = a
     spec = {
         "name": "prog",
         "params": ["x"],
@@ -177,7 +183,7 @@ def call_dag(d, op, args):
         for k in ("target_nodes", "exclude_nodes", "root_nodes"):
             if op.get(k) is not None:
                 kw[k] = op[k]
-        ex = d.executor(**kw)
+        ex = d.executor(**S.spell_selections(kw))
         if is_async:
             return asyncio.run(_acall(ex, args))
         return ex(*args)
@@ -192,7 +198,7 @@ def setup_sites(spec):
     return {i for i, nd in enumerate(spec["nodes"]) if spec["fns"][nd["fn"]].get("setup")}
 
 
-def run_case(spec, op=None, args=None, faults=(), controlled=True, chooser=None, d=None, plain=None, pre_values=None):
+def run_case(spec, op=None, args=None, faults=(), controlled=True, chooser=None, d=None, plain=None, pre_values=None, fault_base=False):
     """Build (unless given), run the reference, run tawazi under the monitors, return a case record."""
     op = op or {"kind": "call"}
     from .sym import Sym
@@ -215,6 +221,7 @@ def run_case(spec, op=None, args=None, faults=(), controlled=True, chooser=None,
     B.reset_log()
     probes.reset_counts()
     probes.State.faults = set(faults)
+    probes.State.fault_base = bool(fault_base)  # the failing nodes raise a BaseException (a cancellation-like error)
     B.Settings.controlled = controlled
     B.Settings.chooser = chooser
     B.Settings.step_limit = 10 * len(d.exec_nodes) + 20
@@ -231,9 +238,10 @@ def run_case(spec, op=None, args=None, faults=(), controlled=True, chooser=None,
         B.Settings.chooser = None
         B.Settings.step_limit = 0
         probes.State.faults = set()
+        probes.State.fault_base = False
     log = B.snapshot()
     return {"spec": spec, "op": op, "args": args, "faults": list(faults), "ref": ref, "res": res, "log": log,
-            "ids": ids, "sel": sel, "dag": d, "plain": plain, "precomputed": set(pre_values)}
+            "ids": ids, "sel": sel, "dag": d, "plain": plain, "precomputed": set(pre_values), "fault_base": bool(fault_base)}
 
 
 # ------------------------------------------------------------------------------------------------
@@ -640,6 +648,15 @@ def _check_c14(v, case, add, st):
     if isinstance(e, probes.Injected):
         if located:
             add("C14", "original_exception_not_wrapped_although_location_known", exc=repr(e))
+    elif isinstance(e, probes.InjectedBase):
+        # the node raised a BaseException (cancellation-like): it reaches the caller as it is; the clauses about what is
+        # started afterwards apply as to any other failure
+        st["c14_base_exception_failures"] += 1
+        if e.node not in faults:
+            add("C14", "cause_is_not_the_injected_failure", node=e.node)
+    elif isinstance(e, TawaziBaseException) and not isinstance(cause, probes.Injected) and isinstance(e.__context__, probes.Injected):
+        # (the wrapper was raised while the node's exception was being handled: that one is its context)
+        add("C14", "cause_is_not_the_exception_the_node_raised", cause=repr(cause)[:120], node_raised=repr(e.__context__)[:120])
     elif isinstance(e, TawaziBaseException) and isinstance(cause, probes.Injected):
         nid = cause.node
         msg = str(e)
